@@ -20,6 +20,18 @@ def parseParts (s : String) : List Part :=
     | [i, ns] => i.toNat?.map fun i => ⟨i, (ns.splitOn ",").filterMap String.toNat?⟩
     | _ => none
 
+/-- one dataset of a listing: `000007 dim=2 sp=0 r=1 [10:1,2;11:3]` -/
+def parseDs (s : String) : Option Dataset :=
+  match s.splitOn " " with
+  | [id, dim, sp, r, parts] =>
+    let num (t : String) : Nat := ((t.splitOn "=").getLastD "").toNat!
+    let ps := ((parts.drop 1).dropEnd 1).toString
+    some ⟨id.toNat!, num dim, num sp, num r, parseParts ps⟩
+  | _ => none
+
+def parseListing (s : String) : List Dataset :=
+  if s.trimAscii.toString == "" then [] else (s.splitOn " | ").filterMap parseDs
+
 def outStr : Outcome → String
   | .ok => "ok" | .exists => "exists" | .notFound => "notfound" | .partitionNotFound => "notfound"
 
@@ -32,6 +44,10 @@ def step (c : Cat) (ws : List String) : Cat × List String :=
   | ["delete", id] => let (c', o) := process c (.delete id.toNat!); (c', [outStr o])
   | ["addnode", ds, p, n] => let (c', o) := process c (.addNode ds.toNat! p.toNat! n.toNat!); (c', [outStr o])
   | ["remnode", ds, p, n] => let (c', o) := process c (.removeNode ds.toNat! p.toNat! n.toNat!); (c', [outStr o])
+  | ["install", snap] =>
+    -- the snapshot in the listing's own format, blanks written as `_`
+    let c' := restore c (parseListing (snap.replace "_" " "))
+    (c', [listing c'])
   | _ => (c, ["bad-op"])
 
 def main (h out : IO.FS.Stream) : IO Unit := runLoop h out [] step []
